@@ -9,8 +9,11 @@ package checks
 import (
 	"encoding/json"
 	"fmt"
+	"sort"
 	"strings"
 	"testing"
+
+	"verif/harness/internal/gen"
 
 	"verif/harness/internal/port"
 	"verif/harness/internal/stats"
@@ -28,6 +31,7 @@ func init() {
 	registerReplay("TestC10_NumericEdges", replay)
 	registerReplay("TestC10_TransformSelfReference", replay)
 	registerReplay("TestC10_EmptyResults", replay)
+	registerReplay("TestC10_FunctionValuesAndStrings", replay)
 }
 
 var c10EdgeNumbers = []string{"1.7e308", "-1.7e308", "1e308", "-1e308", "8.9e307", "1.7976931348623157e308", "5e-324", "-5e-324", "2.2250738585072014e-308", "1", "-1", "0", "9007199254740993", "1e-320", "3", "0.5"}
@@ -171,6 +175,53 @@ func TestC10_EmptyResults(t *testing.T) {
 		}
 	}
 	rec.Exhaustive("empty_result_calls", n)
+}
+
+// TestC10_FunctionValuesAndStrings: every kind of function value as (part
+// of) a result stands for the empty string, and every string is encoded as
+// JSON encodes it, at top level and nested.
+func TestC10_FunctionValuesAndStrings(t *testing.T) {
+	rec := begin(t, "C10", "enumerated: every built-in function (all names of the base environment incl. $now/$millis), a lambda, a partial application, a composition, a transform and a regex as a bare value, in an array, as an object member and nested; and 40 strings with control characters, DEL, quotes, backslashes, non-BMP and non-printable code points, invalid-in-JSON-if-unescaped characters, as the whole result and nested, computed by $, path, &, $string and $uppercase; oracle: strict JSON walk, encoding equals the value with functions as \"\", Eval = EvalBytes (valid JSON); non-trivial = all; distinct by program + input")
+	defer finish(t, rec)
+	var fns []string
+	for name := range gen.BuiltinArity {
+		fns = append(fns, "$"+name)
+	}
+	sort.Strings(fns)
+	fns = append(fns, `function($x){$x}`, `$substring(?, 1)`, `($uppercase ~> $trim)`, `|a|{"b":1}|`, `/ab+/i`, `$now`, `$millis`, `($f := function(){1}; $f)`, `$map(?, $string)`)
+	n := 0
+	run := func(text, in string) bool {
+		n++
+		c := c10Case{Text: text, Input: in, Det: true}
+		m, info := c10Run(c)
+		rec.Case(text+"|"+in, true, func() interface{} {
+			return map[string]interface{}{"expr": text, "input": in, "outcome": info.kind}
+		})
+		rec.Class("outcome_" + info.kind)
+		return !(m != "" && rec.FailNow(c, m) >= 6)
+	}
+	for _, f := range fns {
+		for _, w := range []string{`X`, `[X]`, `{"f": X}`, `[1, [X, "s"], {"k": [X]}]`, `[X, X]`, `$append([X], 1)`} {
+			if !run(strings.ReplaceAll(w, "X", f), `{"a":{"b":2}}`) {
+				return
+			}
+		}
+	}
+	strs := []string{"bell \a", "vt\v", "\x00", "\x01\x02", "\x1f", "\x7f", "del\x7fx", "\u0080", "\u0085", " ", " ", " ", "\xef\xbb\xbf", "�", "\U0001f600", "\U000e0001", "\U0010ffff", "\U000f0000",
+		`"`, `\`, `\"`, `\\`, `/`, "<>&", "\t\n\r", "\b\f", "é", "日本", "à", "‍", "‮", "x\x00y", "'", "`", "${}", "\u001b[0m", " ", "", "퟿", ""}
+	for _, s := range strs {
+		js, _ := json.Marshal(s)
+		in := `{"s":` + string(js) + `,"t":"x"}`
+		for _, p := range []string{`s`, `$.s`, `s & ""`, `t & s & t`, `$string(s)`, `$uppercase(s)`, `[s]`, `{"k": s}`, `{s: 1}`, `$join([s, s], s)`, `$substring(s, 0)`, `$pad(s, 3)`} {
+			if !run(p, in) {
+				return
+			}
+		}
+		if !run(`$`, string(js)) || !run(`$ & $`, string(js)) {
+			return
+		}
+	}
+	rec.Exhaustive("function_values_and_strings", n)
 }
 
 func replaceAllStr(s, old, new string) string {
